@@ -180,3 +180,12 @@ CASES += [
         (_RT1, "                self._data[nn,nn,nn,nn] = -(numpy.trace(self._data[:,:,nn,nn])\n                                            - self._data[nn,nn,nn,nn])\n",
                "                self._data[nn,nn,nn,nn] = (self._data[nn,nn,nn,nn]\n                                            - numpy.trace(self._data[:,:,nn,nn]))\n", 1)]},
 ]
+
+CASES += [
+    {"name": "diagonal zeroed first, then minus the trace", "kind": "twin", "edits": [
+        (_RT1, "                self._data[nn,nn,nn,nn] = -(numpy.trace(self._data[:,:,nn,nn])\n                                            - self._data[nn,nn,nn,nn])\n",
+               "                self._data[nn,nn,nn,nn] = 0.0\n                self._data[nn,nn,nn,nn] = -numpy.trace(self._data[:,:,nn,nn])\n", 1)]},
+    {"name": "diagonal zeroed first, then the trace subtracted twice", "kind": "mutant", "rule": "C01-K", "edits": [
+        (_RT1, "                self._data[nn,nn,nn,nn] = -(numpy.trace(self._data[:,:,nn,nn])\n                                            - self._data[nn,nn,nn,nn])\n",
+               "                self._data[nn,nn,nn,nn] = 0.0\n                self._data[nn,nn,nn,nn] -= 2.0*numpy.trace(self._data[:,:,nn,nn])\n", 1)]},
+]
